@@ -448,7 +448,27 @@ def r4_edge_sources(ctx):
     ctx.floor('bundle-advancing paths of EdgesIter::next', n, 1)
 
 
+def r5_extracted_afresh(ctx):
+    """a topology view mirrors the gate graph as it is when the view is taken: Globals::topology extracts it from the modules on every
+    call (gates can be re-wired at any time; a stored copy goes stale without the module count changing)"""
+    ctx.set_rule('C19.R5')
+    P = ctx.P
+    f = ctx.anchor('des::net::runtime::Globals::topology')
+    if not f:
+        return
+    ctx.touch(f)
+    scope = [f] + P.closures_of(f)
+    fm = [(g, c) for g in scope for c in g.calls() if c.name == T + '::from_modules']
+    if ctx.floor('Topology::from_modules in Globals::topology', len(fm), 1):
+        g, c = fm[0]
+        conds = [a for _, a in g.guard_atoms(c.b) if a and a[0] in ('bool', 'cmp')]
+        ctx.check(g.postdominates_entry(c.b) and not conds, 'topology-extracted-on-every-call', 'Globals::topology builds the view from the modules on every call', c.where(), [show_atom(a) for a in conds][:3])
+    stored = [(k, fd['n']) for k, a in P.adts.items() if k.startswith('des::net::runtime::') for v in a.get('variants', []) for fd in v['fields'] if 'topology::Topology<' in fd['ty']]
+    ctx.check(not stored, 'no-stored-topology', 'the simulation globals keep no copy of an extracted topology', f.where(), stored)
+
+
 def run(ctx):
+    r5_extracted_afresh(ctx)
     r4_edge_sources(ctx)
     r1_worklists(ctx)
     r2_edge_provenance(ctx)
